@@ -29,6 +29,29 @@ def check(ctx, cfg):
     r5(ctx, cfg)
     r6(ctx, cfg)
     r7(ctx, cfg)
+    r8(ctx, cfg)
+
+
+def r8(ctx, cfg):
+    """who may change the code registry"""
+    F, P = cfg.facts, cfg.prov
+    R = "C11.R8"
+    writers = {}
+    for f in F.user_fns():
+        if f.file != "src/wasm.rs":
+            continue
+        for bid, t in f.calls():
+            c = t["callee"]
+            if c.get("inputs") and c["inputs"][0].get("ref") == "mut" and t["args"]:
+                o = peel(P.operand(f, t["args"][0], (bid, "t")))
+                if o[0] == "field" and o[2] in ("code_data", "code_base") and is_param(o[1], "self"):
+                    writers.setdefault(o[2], set()).add(f.key.split("::{closure")[0])
+    ctx.ob(R, "wasm::WasmKeeper.code_data", "writers", writers.get("code_data") == {W + "save_code", WT + "duplicate_code"},
+           "code_data is mutated by %s" % sorted(writers.get("code_data", [])), sample=str(sorted(writers.get("code_data", []))))
+    ctx.ob(R, "wasm::WasmKeeper.code_base", "writers", writers.get("code_base") == {W + "save_code"},
+           "code_base is mutated by %s" % sorted(writers.get("code_base", [])), sample=str(sorted(writers.get("code_base", []))))
+    q.who_may_call(ctx, R, F, W + "save_code", {WT + "store_code", WT + "store_code_with_id"}, "codes are stored by store_code[_with_id] only")
+    q.who_may_call(ctx, R, F, W + "register_contract", {W + "process_wasm_msg_instantiate"}, "contracts are registered by instantiation only")
 
 
 def _is_code_data_field(o):
